@@ -17,10 +17,11 @@ import (
 )
 
 type W struct {
-	w    *bufio.Writer
-	n    int
-	hist map[string]int
-	nt   map[uint64]struct{} // hashes of distinct non-trivial case lines
+	w       *bufio.Writer
+	n       int
+	hist    map[string]int
+	nt      map[uint64]struct{} // hashes of distinct non-trivial case lines
+	pairTag int
 }
 
 // implFn runs the implementation entry point of one tag on integer-encoded args.
